@@ -22,6 +22,7 @@ for m in sorted(os.listdir(os.path.join(wt, "seeded"))):
         dst = dst[:-4]
     pat = re.search(r"-run (\S+)", demo).group(1)
     pkg = re.search(r"(\./\S+)", demo[demo.index("go test"):]).group(1)
+    racef = "-race " if " -race " in demo else ""
     res = {"repo_head": head}
     p = sh("git apply seeded/%s/patch.diff" % m)
     if p.returncode != 0:
@@ -30,13 +31,13 @@ for m in sorted(os.listdir(os.path.join(wt, "seeded"))):
     p = sh("go build ./... && go test -vet=off -count=1 ./... 2>&1 | grep -v '^ok\\|no test files' | head -20")
     res["suite_with_patch"] = "pass" if p.stdout.strip() == "" else "FAIL: " + p.stdout[-800:]
     shutil.copy(os.path.join(d, src), os.path.join(wt, dst))
-    p = sh("go test -vet=off -count=1 -run '%s' %s" % (pat, pkg))
+    p = sh("go test -vet=off -count=1 %s-run '%s' %s" % (racef, pat, pkg))
     res["demo_with_patch"] = "fails" if p.returncode != 0 else "PASSES (unexpected)"
     res["demo_with_patch_tail"] = p.stdout[-600:]
     os.remove(os.path.join(wt, dst))
     sh("git checkout -q -- .")
     shutil.copy(os.path.join(d, src), os.path.join(wt, dst))
-    p = sh("go test -vet=off -count=1 -run '%s' %s" % (pat, pkg))
+    p = sh("go test -vet=off -count=1 %s-run '%s' %s" % (racef, pat, pkg))
     res["demo_without_patch"] = "passes" if p.returncode == 0 else "FAILS (unexpected): " + p.stdout[-600:]
     os.remove(os.path.join(wt, dst))
     ok = res["suite_with_patch"] == "pass" and res["demo_with_patch"] == "fails" and res["demo_without_patch"] == "passes"
@@ -49,6 +50,6 @@ for m in sorted(os.listdir(os.path.join(wt, "seeded"))):
         shutil.copy(os.path.join(d, src), os.path.join(out, src if src.endswith(".txt") else src + ".txt"))
         meta["breaks"] = pid
         meta["demo_dest"] = dst
-        meta["demo_run"] = "go test -vet=off -count=1 -run '%s' %s" % (pat, pkg)
+        meta["demo_run"] = "go test -vet=off -count=1 %s-run '%s' %s" % (racef, pat, pkg)
         meta["verified_by_me"] = res
         json.dump(meta, open(os.path.join(out, "meta.json"), "w"), indent=1)
